@@ -63,6 +63,8 @@ func (*compiler).loadStructField
 // (including the wrap-around of i-1 at the minimum), and the element address is computed
 // only under 0 <= i-1 < len.
 func (*compiler).evaluateAssignableOrReference [C06]
+  // ASSUMED for callers (not proved here): the descriptor returned for an assignable of a primitive class is that class's descriptor
+  postassume 1 <= asgClassOf(ass) && asgClassOf(ass) <= 5 ==> result1 == descr(c, asgClassOf(ass))
   at L1 before call createIfElse
   assume ir.den(zero) == bv64(0)
   ensures [C06] reached(L1) && bvsge(fieldDen(lhs, list_len_field_index), bv64(0)) ==>
@@ -105,6 +107,8 @@ spec descr(c *compiler, k int) ddpIrType :=
   k == 1 ? box(c.ddpinttyp) : (k == 2 ? box(c.ddpfloattyp) : (k == 3 ? box(c.ddpbytetyp) : (k == 4 ? box(c.ddpbooltyp) : box(c.ddpchartyp))))
 // class the type checker assigned to an expression (its typed AST annotation)
 spec tyClassOf(e ast.Expression) int
+// class of the type of an assignable (variable, list element, field)
+spec asgClassOf(a ast.Assigneable) int
 
 // ASSUMED set-up facts (established by the compiler's constructor, not re-proved here): the five primitive
 // descriptors are distinct objects and the IR constants/types have the obvious IR type classes
@@ -174,13 +178,12 @@ func (*compiler).VisitTernaryExpr [C02]
 //     is converted to the target's type before it is stored ---
 func (*compiler).VisitAssignStmt [C02]
   cases tyClassOf(s.Rhs) in {1, 2, 3}
-  cases ddptypes.clsOf(s.VarType) in {1, 2, 3}
+  cases asgClassOf(s.Var) in {1, 2, 3}
   requires s != nil
-  // the checker's annotations are consistent with the class of the right-hand side
-  assume wfCompiler(c) && tyClassOf(s.Rhs) == ddptypes.clsOf(s.RhsType)
+  // the checker's annotations are consistent with the classes of both sides
+  assume wfCompiler(c) && tyClassOf(s.Rhs) == ddptypes.clsOf(s.RhsType) && asgClassOf(s.Var) == ddptypes.clsOf(s.VarType)
   nopanic
-  callsite claimOrCopy requires lhsTyp == descr(c, ddptypes.clsOf(s.VarType)) ==>
-             arg3 == lhsTyp && ir.irty(arg2) == irOfClass(ddptypes.clsOf(s.VarType))
+  callsite claimOrCopy requires arg3 == lhsTyp && ir.irty(arg2) == irOfClass(asgClassOf(s.Var))
 
 // ================= C07: a faulty module is never handed to the code generator =================
 func newCompiler
